@@ -307,6 +307,9 @@ func checkReaders(prop, tier string, seed int64) int {
 		b := &Bundle{Docs: map[string]*Node{"root": root}, Files: map[string]string{"root": "api/root.json"}}
 		c := &Case{Tid: fmt.Sprintf("g%d", i), Source: "gen", Bundle: b, Names: g.Names.ToConcrete}
 		if err := c.Materialize(filepath.Join(scratch, "cases", c.Tid)); err == nil {
+			if i%2 == 1 {
+				c.NullScopes()
+			}
 			cases = append(cases, c)
 		}
 	}
